@@ -113,7 +113,8 @@ Fixpoint parse_set_opts (fuel : nat) (opts : list frame) (ttl : option Z) (nx xx
           | [] => SetSyntax
           | FBulk s :: rest' =>
               match parse_u64 s with
-              | Some n => parse_set_opts f rest' (Some (n * 1000)) nx xx
+              | Some n => if n =? 0 then SetBadExpire      (* 48bcb4d: the expire time must be positive *)
+                          else parse_set_opts f rest' (Some (n * 1000)) nx xx
               | None => SetBadExpire
               end
           | _ => SetBadExpire
@@ -123,7 +124,8 @@ Fixpoint parse_set_opts (fuel : nat) (opts : list frame) (ttl : option Z) (nx xx
           | [] => SetSyntax
           | FBulk s :: rest' =>
               match parse_u64 s with
-              | Some n => parse_set_opts f rest' (Some n) nx xx
+              | Some n => if n =? 0 then SetBadExpire
+                          else parse_set_opts f rest' (Some n) nx xx
               | None => SetBadExpire
               end
           | _ => SetBadExpire
@@ -146,6 +148,7 @@ Definition h_set (now : Z) (d : db) (parts : list frame) : frame * db :=
           match parse_set_opts (length parts) (skipn 3 parts) None false false with
           | SetSyntax | SetBadExpire => (r_err, d)
           | SetOpts ttl nx xx =>
+              if nx && xx then (r_err, d) else          (* f4c6282: NX and XX exclude each other *)
               match ttl with
               | Some ms => if ttl_ok ms then
                   (if nx then
@@ -375,7 +378,13 @@ Fixpoint mget_loop (now : Z) (d : db) (args : list frame) (acc : list frame) : f
 Definition h_mget (now : Z) (d : db) (parts : list frame) : frame * db :=
   if nparts parts <? 2 then (r_err, d) else mget_loop now d (tl parts) [].
 
-(** MSET: pairs applied one at a time; a non-bulk argument stops half-way *)
+(** MSET: every pair is validated before the first is stored (974d7d6) *)
+Fixpoint mset_valid (args : list frame) : bool :=
+  match args with
+  | [] => true
+  | FBulk _ :: FBulk _ :: rest => mset_valid rest
+  | _ => false
+  end.
 Fixpoint mset_loop (now : Z) (d : db) (args : list frame) : frame * db :=
   match args with
   | [] => (r_ok, d)
@@ -387,7 +396,8 @@ Fixpoint mset_loop (now : Z) (d : db) (args : list frame) : frame * db :=
   | _ => (r_err, d)
   end.
 Definition h_mset (now : Z) (d : db) (parts : list frame) : frame * db :=
-  if (nparts parts <? 3) || (nparts parts mod 2 =? 0) then (r_err, d) else mset_loop now d (tl parts).
+  if (nparts parts <? 3) || (nparts parts mod 2 =? 0) then (r_err, d)
+  else if mset_valid (tl parts) then mset_loop now d (tl parts) else (r_err, d).
 
 Definition h_getset (now : Z) (d : db) (parts : list frame) : frame * db :=
   if negb (nparts parts =? 3) then (r_err, d) else
@@ -494,7 +504,8 @@ Definition h_setrange (d : db) (parts : list frame) : frame * db :=
                                        (r_int (len nb), put_entry d k {| e_val := VStr nb; e_exp := e_exp en |})
                            | _ => (r_wrongtype, d)
                            end
-              | None => let nb := zeros off ++ v in
+              | None => if len v =? 0 then (r_int 0, d)      (* 1a8fa0e: setting nothing creates nothing *)
+                        else let nb := zeros off ++ v in
                         (r_int (len nb), put_entry d k {| e_val := VStr nb; e_exp := None |})
               end
           end
